@@ -55,6 +55,8 @@ type Outcome = Result<(), VerifierError>;
 thread_local! {
     /// when set to Some(k): the verifier is handed the claimed evaluations with the k-th queried one changed
     static CORRUPT_CLAIM: std::cell::Cell<Option<usize>> = const { std::cell::Cell::new(None) };
+    /// when set: these query positions are used instead of the ones drawn from the channel
+    static FORCED_POSITIONS: std::cell::RefCell<Option<Vec<usize>>> = const { std::cell::RefCell::new(None) };
 }
 
 #[allow(clippy::too_many_arguments)]
@@ -74,7 +76,10 @@ where
     let domain_size = evals.len();
     let mut channel = DefaultProverChannel::<E, H, DefaultRandomCoin<H>>::new(domain_size, num_queries);
     prover.build_layers(&mut channel, evals.to_vec());
-    let positions = channel.draw_query_positions(0);
+    let mut positions = channel.draw_query_positions(0);
+    if let Some(forced) = FORCED_POSITIONS.with(|f| f.borrow().clone()) {
+        positions = forced;
+    }
     let proof = prover.build_proof(&positions);
     let commitments = channel.layer_commitments().to_vec();
 
@@ -327,6 +332,27 @@ fn large_layers(cases: &mut u64, rng: &mut Rng) {
             Ok(Ok(())) => {},
             Ok(Err(e)) => fail(format!("honest FRI proof with large layers rejected ({e}): quadratic extension of f128, trace_len={n} folding=16 queries={queries}")),
             Err(_) => fail(format!("FRI prover/verifier panicked on large layers: queries={queries}")),
+        }
+    }
+    // exactly 255 distinct folded positions in the first layer (the documented maximum of a batch opening): 255 distinct
+    // positions, and 305 positions of which 50 repeat a folded position; 254 as the neighbouring case
+    for (what, positions) in [
+        ("254 distinct", (0..254usize).collect::<Vec<_>>()),
+        ("255 distinct", (0..255usize).map(|i| 4 * i + 1).collect::<Vec<_>>()),
+        ("305 positions folding to 255", (0..255usize).chain((0..50usize).map(|i| i + 1024)).collect::<Vec<_>>()),
+    ] {
+        let (n, blowup) = (4096usize, 4usize);
+        let options = FriOptions::new(blowup, 16, 7);
+        let evals = evaluations::<f128::BaseElement, Q>(n, n * blowup, rng);
+        let mut prover: FriProver<f128::BaseElement, Q, DefaultProverChannel<Q, H, DefaultRandomCoin<H>>, H> = FriProver::new(options.clone());
+        *cases += 1;
+        FORCED_POSITIONS.with(|f| *f.borrow_mut() = Some(positions.clone()));
+        let r = catch_unwind(AssertUnwindSafe(|| run::<f128::BaseElement, Q, H>(&mut prover, &options, &evals, n - 1, 40, None)));
+        FORCED_POSITIONS.with(|f| *f.borrow_mut() = None);
+        match r {
+            Ok(Ok(())) => {},
+            Ok(Err(e)) => fail(format!("honest FRI proof rejected ({e}): quadratic extension of f128, trace_len={n} folding=16 query positions: {what}")),
+            Err(_) => fail(format!("FRI prover/verifier panicked: trace_len={n} folding=16 query positions: {what}")),
         }
     }
     let _ = core::marker::PhantomData::<CubeExtension<f64::BaseElement>>;
